@@ -20,7 +20,7 @@ INFO = {
     "matching exactly runs of those characters (string terminals): equal results, node positions, terminal "
     "layout_content and error positions; LR and GLR.",
     "bounds": {"quick": {"A": "N=5, 8 grammars", "A-comments": "N=4, 2 grammars, input alphabet {a b / * space newline x}; the reference comment stripper models the docs' comment idiom token by token and was compared natively with the real parser on every input of length <= 7 over {a / * space newline x}: equal up to length 5, from length 6 on the idiom's LALR layout parser reports a lexical ambiguity for a closing */ followed by // (NotComment is a look-ahead of the merged state) - outside", "B": "N=4, 6 grammars"},
-               "thorough": {"A": "N=6", "A-comments": "N=5, 4 grammars, alphabet {a b / * space newline x ( ) +}", "B": "N=5, 14 grammars"}},
+               "thorough": {"A": "N=6", "A-comments": "N=5, 4 grammars, alphabet = the characters of the grammar's terminals + {/ * space newline x}", "B": "N=5, 14 grammars"}},
     "outside": "inputs longer than N; multi-character terminals whose boundaries depend on layout; custom layout_actions",
     "assumptions": ["get_context stubbed; realize-atomic marks", "regex model for WS / LineComment / NotComment (ASCII input there)"],
 }
@@ -66,7 +66,7 @@ def cases(tier, seed):
         for mode in ("lr", "glr"):
             c = _case("AC", nm, mode, 4 if q else 5)
             # 'x' stands for every character that is neither token nor comment syntax
-            c["params"]["alphabet"] = "ab/* \nx" if q else "ab/* \nx()+"
+            c["params"]["alphabet"] = "ab/* \nx" if q else "auto"  # auto: the characters of the grammar's terminals + / * space newline x
             out.append(c)
     names = B_SHAPES if q else B_SHAPES + ["midrec", "list-sep", "two-nullables", "opt-list", "hidden-left", "palindrome", "rightrec", "unit-chain"]
     for nm in names:
@@ -278,6 +278,8 @@ def build(params, symbolic):
             return True
         # comments
         alpha = params.get("alphabet")
+        if alpha == "auto":
+            alpha = "".join(sorted({ch for k_, v_ in spec.terms.values() for ch in v_})) + "/* \nx"
         for i in range(n):
             if w[i] > "\x7f" or (alpha and w[i] not in alpha):
                 raise Pre()
